@@ -98,6 +98,7 @@ func main() {
 		slog     = flag.String("solverlog", "", "solver log prefix")
 		knownF   = flag.String("known", "", "comma separated open known-finding ids")
 		list     = flag.Bool("list", false, "list harnesses in the package")
+		wallMax  = flag.Int("walltime", 3000, "wall-clock limit for exploration in seconds (fail closed)")
 		bounds   multiFlag
 		stubs    multiFlag
 		merges   multiFlag
@@ -289,7 +290,31 @@ func main() {
 	}
 
 	t1 := time.Now()
+	timedOut := false
+	doneCh := make(chan struct{})
+	go func() {
+		tick := time.NewTicker(10 * time.Second)
+		defer tick.Stop()
+		for {
+			select {
+			case <-doneCh:
+				return
+			case <-tick.C:
+				eng.mu.Lock()
+				if *verbose {
+					fmt.Fprintf(os.Stderr, "[gosym] %.0fs paths=%d work=%d inflight=%d feas=%d/%d\n", time.Since(t1).Seconds(), eng.stats.Paths, len(eng.work), eng.inflight, eng.stats.FeasSat, eng.stats.FeasUnsat)
+				}
+				if time.Since(t1).Seconds() > float64(*wallMax) {
+					eng.stop = true
+					timedOut = true
+				}
+				eng.mu.Unlock()
+				eng.cond.Broadcast()
+			}
+		}
+	}()
 	eng.Explore(hfn)
+	close(doneCh)
 	wall := time.Since(t1).Seconds()
 
 	// aggregate
@@ -339,6 +364,9 @@ func main() {
 				o.ConcreteStatus += ": " + r.Msg
 			}
 		}
+	}
+	if timedOut {
+		o.Problems = append(o.Problems, fmt.Sprintf("walltime: exploration stopped after %ds with %d paths done", *wallMax, eng.stats.Paths))
 	}
 	if eng.stats.PathsByStatus["pathcap"] > 0 {
 		o.Problems = append(o.Problems, fmt.Sprintf("pathcap: exploration stopped at %d paths", eng.stats.Paths))
